@@ -229,6 +229,39 @@ func c15Kinds() []invalidKind {
 			it["target"] = "http://127.0.0.1:9/elsewhere"
 			return true
 		}},
+		{"target_spelled_differently", 400, func(r *vlib.Rand, cfg pubCfg, it pubItem, sc bool, _ string, _ []pubItem) bool {
+			// a target is an exact string of the route: another letter case, a trailing
+			// slash or dot, an added default port or an escaped octet names something else
+			if sc {
+				return false
+			}
+			rt := cfg.route(fmt.Sprint(it["route"]))
+			if rt == nil || len(rt.Targets) == 0 {
+				return false
+			}
+			base := vlib.Pick(r, rt.Targets)
+			alts := []string{strings.ToUpper(base), strings.Title(base), base + "/", base + ".", base + "?", base + "#", strings.Replace(base, "://", "://user@", 1), strings.Replace(base, "/hook", "/%68ook", 1), strings.Replace(base, "/hook", "/HOOK", 1), strings.Replace(base, "http", "HTTP", 1), "\u00a0" + base}
+			var cands []string
+			for _, a := range alts {
+				if a == base || strings.TrimSpace(a) == base {
+					continue
+				}
+				dup := false
+				for _, t := range rt.Targets {
+					if t == a {
+						dup = true
+					}
+				}
+				if !dup {
+					cands = append(cands, a)
+				}
+			}
+			if len(cands) == 0 {
+				return false
+			}
+			it["target"] = vlib.Pick(r, cands)
+			return true
+		}},
 		{"bad_base64", 400, func(r *vlib.Rand, cfg pubCfg, it pubItem, sc bool, _ string, _ []pubItem) bool {
 			it["payload_b64"] = vlib.Pick(r, []string{"!!!notbase64", "YQ", "YQ==YQ==", "_-_-"})
 			return true
@@ -300,7 +333,7 @@ func c15Kinds() []invalidKind {
 
 // C15: Admin publish is validated and all-or-nothing.
 func C15(c *vlib.Ctx) {
-	c.Rule("generated configurations (pull / single-target / multi-target / managed / publish off / publish.direct off / publish.managed off / small-limit routes; defaults.publish_policy switches; max_depth 0/12/30 with reject or drop_oldest; memory and SQLite) run through the production wiring. Batches of 1-40 (thorough: up to 1000) valid items get at most one invalid item of one of 22 kinds at a generated position, on the global and on the endpoint-scoped path, with request-level causes (missing audit reason / actor / request id, disabled path, malformed JSON, unknown field, empty or >1000 items) and near-full queues. Independent validator: reject => snapshot unchanged + structured error whose item_index names the offending item; accept (200) => every item present exactly once, state queued, one resolved target, payload/headers/trace/times as published. distinct_nontrivial = distinct (backend, path kind, invalidity kind, position class, batch-size class, outcome) classes.")
+	c.Rule("generated configurations (pull / single-target / multi-target / managed / publish off / publish.direct off / publish.managed off / small-limit routes; defaults.publish_policy switches; max_depth 0/12/30 with reject or drop_oldest; memory and SQLite) run through the production wiring. Batches of 1-40 (thorough: up to 1000) valid items get at most one invalid item of one of 23 kinds at a generated position, on the global and on the endpoint-scoped path, with request-level causes (missing audit reason / actor / request id, disabled path, malformed JSON, unknown field, empty or >1000 items) and near-full queues. Independent validator: reject => snapshot unchanged + structured error whose item_index names the offending item; accept (200) => every item present exactly once, state queued, one resolved target, payload/headers/trace/times as published. distinct_nontrivial = distinct (backend, path kind, invalidity kind, position class, batch-size class, outcome) classes.")
 	c.Assume("item_index equality is demanded when exactly one item is invalid (validation runs in phases, so with several invalid items only membership would be checkable)")
 	dir := c.Scratch()
 	kinds := c15Kinds()
